@@ -289,9 +289,18 @@ static void mode_c16(const Args &a) {
         Rng r(case_seed(a.seed, "C16", i));
         GraphSpec s;
         if (!a.replay.empty()) { std::ifstream in(a.replay); if (!parse_spec(in, s)) { emit_harness_failure("cannot parse replay spec"); exit(2); } }
+        else if (r.chance(0.06)) { // queue / block-size thresholds of the BFS: isolated vertices, then a cut vertex with 130-420 pendant leaves (and a few cycles)
+            int iso = (int) r.range(0, 191), leaves = (int) r.range(130, 420); int hub = iso; int n = iso + 1 + leaves;
+            for (int q = 0; q < leaves; q++) s.edges.push_back({hub, iso + 1 + q, 1});
+            int cyc = (int) r.range(0, 3); for (int q = 0; q < cyc; q++) { int a_ = iso + 1 + (int) r.below(leaves), b_ = iso + 1 + (int) r.below(leaves); if (a_ != b_) { bool dup = false; for (auto &e : s.edges) if ((e.u == a_ && e.v == b_) || (e.u == b_ && e.v == a_)) dup = true; if (!dup) s.edges.push_back({a_, b_, 1}); } }
+            s.n = n; int numbering = (int) r.below(3);     // 0: isolated, hub, leaves; 1: random; 2: hub first, leaves, isolated last
+            if (numbering == 1) { std::vector<int> perm(n); std::iota(perm.begin(), perm.end(), 0); r.shuffle(perm); for (auto &e : s.edges) { e.u = perm[e.u]; e.v = perm[e.v]; } r.shuffle(s.edges); }
+            if (numbering == 2) { for (auto &e : s.edges) { e.u -= iso; e.v -= iso; } }
+            s.family = "isolated_then_hub"; }
         else if (a.geti("large", 1) && r.chance(0.002)) { // size thresholds (narrow counters): ~70 000 vertices in a few thousand components
-            int n = (int) r.range(66000, 72000); s.n = n; for (int v = 0; v + 1 < n; v++) if (!r.chance(0.05)) s.edges.push_back({v, v + 1, 1}); int extra = (int) r.range(1, 300); for (int q = 0; q < extra; q++) { int a_ = (int) r.below(n - 5); s.edges.push_back({a_, a_ + 3, 1}); } s.family = "huge_paths_with_chords"; }
+            int n = (int) r.range(66000, 72000); s.n = n; for (int v = 0; v + 1 < n; v++) if (!r.chance(0.05)) s.edges.push_back({v, v + 1, 1}); int extra = (int) r.range(1, 300); std::set<int> used_a; for (int q = 0; q < extra; q++) { int a_ = (int) r.below(n - 5); if (used_a.insert(a_).second) s.edges.push_back({a_, a_ + 3, 1}); } s.family = "huge_paths_with_chords"; }
         else { GenOpts o; o.max_n = (int) r.range(0, max_n); o.tie_bias = 1.0; s = gen_graph(r, o); }
+        { std::set<std::pair<int, int>> seen; for (auto &e : s.edges) if (e.u == e.v || !seen.insert({std::min(e.u, e.v), std::max(e.u, e.v)}).second) { emit_harness_failure("C16 generator produced a non-simple graph (family " + s.family + ")"); exit(2); } }
         CaseOut co(i);
         bool scramble = r.chance(0.5) && s.n < 5000;
         G g(s.n); auto w = boost::get(boost::edge_weight, g);
